@@ -17,6 +17,8 @@ structure FlagInv (x y : Ep) (w : List Msg) : Prop where
   rcd : y.remoteClientDropped = true → openReqs w = []
   cdq : y.clientDroppedQueued ≤ b2n y.remoteClientDropped
   last : x.goodbyeSent = true → y.goodbyeReceived = false → w.getLast? = some .goodbye
+  /-- nothing is left in the wire once the reader has seen `Goodbye` -/
+  done : y.goodbyeReceived = true → w = []
 
 theorem openReqs_append (a b : List Msg) : openReqs (a ++ b) = openReqs a ++ openReqs b := by
   induction a with
@@ -175,12 +177,18 @@ theorem flag_x_evt (x x' y : Ep) (w : List Msg) (ev : Evt) (m : Option Msg)
     (he : handleEvt x ev = some (x', m)) (h : FlagInv x y w) (hgs : x.goodbyeSent = false)
     (hreq : isConnReq ev = true → x.allClientsDropped = false) :
     FlagInv x' y (w ++ emitList m) := by
+  have hgr : y.goodbyeReceived = false := by
+    have := h.gb; rw [hgs] at this
+    cases hr : y.goodbyeReceived with
+    | false => rfl
+    | true => simp [hr, b2n] at this
+  have hdone : ∀ w' : List Msg, y.goodbyeReceived = true → w' = [] := fun w' hd => by rw [hgr] at hd; simp at hd
   rcases handleEvt_flags x x' ev m he with ⟨sf, _, hm⟩ | ⟨rfl, h1, rfl, rfl⟩ | ⟨rfl, h1, rfl, rfl⟩ | ⟨rfl, h1, rfl, rfl⟩
   · cases m with
     | none =>
       simp only [emitList, List.append_nil]
       exact ⟨by rw [sf.acd]; exact h.cf, by rw [sf.ld]; exact h.lf, by rw [sf.gbs]; exact h.gb, h.acf, h.rcd, h.cdq,
-             by rw [sf.gbs]; exact h.last⟩
+             by rw [sf.gbs]; exact h.last, h.done⟩
     | some msg =>
       have hmsg := hm msg (by simp [emitList])
       have hpl : isPlainMsg msg = true ∨ ∃ p w i, msg = .openPort p w i := by
@@ -189,7 +197,7 @@ theorem flag_x_evt (x x' y : Ep) (w : List Msg) (ev : Evt) (m : Option Msg)
         · exact Or.inr h'
       obtain ⟨c1, c2, c3⟩ := plain_counts msg hpl
       simp only [emitList]
-      refine ⟨?_, ?_, ?_, ?_, ?_, h.cdq, ?_⟩
+      refine ⟨?_, ?_, ?_, ?_, ?_, h.cdq, ?_, hdone _⟩
       · rw [List.count_append, c1, sf.acd]; exact h.cf
       · rw [List.count_append, c2, sf.ld]; exact h.lf
       · rw [List.count_append, c3, sf.gbs]; exact h.gb
@@ -211,7 +219,7 @@ theorem flag_x_evt (x x' y : Ep) (w : List Msg) (ev : Evt) (m : Option Msg)
       | false => rfl
       | true => simp [hr] at hcf
     simp only [emitList]
-    refine ⟨?_, ?_, ?_, okAfterCF_snoc w _ h.acf (Or.inl hc0), fun hr => by rw [hr0] at hr; simp at hr, h.cdq, ?_⟩
+    refine ⟨?_, ?_, ?_, okAfterCF_snoc w _ h.acf (Or.inl hc0), fun hr => by rw [hr0] at hr; simp at hr, h.cdq, ?_, hdone _⟩
     · simp [List.count_append, hc0, hr0, b2n]
     · simpa [List.count_append] using h.lf
     · simpa [List.count_append] using h.gb
@@ -224,7 +232,7 @@ theorem flag_x_evt (x x' y : Ep) (w : List Msg) (ev : Evt) (m : Option Msg)
       | false => rfl
       | true => simp [hr] at hlf
     simp only [emitList]
-    refine ⟨?_, ?_, ?_, okAfterCF_snoc w _ h.acf (Or.inr ⟨rfl, by simp⟩), ?_, h.cdq, ?_⟩
+    refine ⟨?_, ?_, ?_, okAfterCF_snoc w _ h.acf (Or.inr ⟨rfl, by simp⟩), ?_, h.cdq, ?_, hdone _⟩
     · simpa [List.count_append] using h.cf
     · simp [List.count_append, hc0, hr0, b2n]
     · simpa [List.count_append] using h.gb
@@ -238,7 +246,7 @@ theorem flag_x_evt (x x' y : Ep) (w : List Msg) (ev : Evt) (m : Option Msg)
       | false => rfl
       | true => simp [hr] at hgb
     simp only [emitList]
-    refine ⟨?_, ?_, ?_, okAfterCF_snoc w _ h.acf (Or.inr ⟨rfl, by simp⟩), ?_, h.cdq, ?_⟩
+    refine ⟨?_, ?_, ?_, okAfterCF_snoc w _ h.acf (Or.inr ⟨rfl, by simp⟩), ?_, h.cdq, ?_, hdone _⟩
     · simpa [List.count_append] using h.cf
     · simpa [List.count_append] using h.lf
     · simp [List.count_append, hc0, hr0, b2n]
@@ -257,7 +265,7 @@ theorem flag_y_evt (x y y' : Ep) (w : List Msg) (ev : Evt) (m : Option Msg)
     · exact ⟨rfl, rfl, rfl, Nat.le_refl _⟩
   obtain ⟨k1, k2, k3, k4⟩ := key
   exact ⟨by rw [k1]; exact h.cf, by rw [k2]; exact h.lf, by rw [k3]; exact h.gb, h.acf, by rw [k1]; exact h.rcd,
-         by rw [k1]; exact Nat.le_trans k4 h.cdq, by rw [k3]; exact h.last⟩
+         by rw [k1]; exact Nat.le_trans k4 h.cdq, by rw [k3]; exact h.last, by rw [k3]; exact h.done⟩
 
 /-- what a delivered control message does to the connection-level flags -/
 theorem handleRx_flags (e e' : Ep) (m : Msg) (em : Emit) (h : handleRx e m = .ok (e', em)) (hctl : isCtl m = true) :
@@ -335,7 +343,7 @@ theorem flag_y_rx (x y y0 y' : Ep) (rest : List Msg) (m : Msg) (em : Emit)
   obtain ⟨b1, b2, b3, b4⟩ := h2
   have hcf := h.cf; have hlf := h.lf; have hgb := h.gb
   rw [count_cons_self_or] at hcf hlf hgb
-  refine ⟨?_, ?_, ?_, okAfterCF_tail m rest h.acf, ?_, ?_, ?_⟩
+  refine ⟨?_, ?_, ?_, okAfterCF_tail m rest h.acf, ?_, ?_, ?_, ?_⟩
   · rw [b1, f4, a1]
     by_cases hm : m = .clientFinish
     · subst hm; simp only [if_true, b2n] at hcf ⊢
@@ -384,6 +392,28 @@ theorem flag_y_rx (x y y0 y' : Ep) (rest : List Msg) (m : Msg) (em : Emit)
       | false => rfl
       | true => simp [h'] at hr
     exact getLast_tail m rest _ (h.last hs hr') hm
+  · intro hr
+    rw [b3, f6, a3] at hr
+    cases hy : y.goodbyeReceived with
+    | true => have := h.done hy; simp at this
+    | false =>
+      simp only [hy, Bool.false_or, beq_iff_eq] at hr
+      subst hr
+      simp only [if_true, hy, b2n] at hgb
+      have hxs : x.goodbyeSent = true := by
+        cases hx : x.goodbyeSent with
+        | true => rfl
+        | false => simp [hx] at hgb
+      have hl := h.last hxs hy
+      simp only [hxs, if_true, Bool.false_eq_true, if_false, Nat.add_zero] at hgb
+      cases rest with
+      | nil => rfl
+      | cons a as =>
+        exfalso
+        have h2 : (a :: as).getLast? = some Msg.goodbye := by simpa [List.getLast?_cons_cons] using hl
+        have hin : Msg.goodbye ∈ a :: as := List.mem_of_getLast? h2
+        have : 0 < (a :: as).count Msg.goodbye := List.count_pos_iff.mpr hin
+        omega
 
 /-- writer side handles a message from the other wire: its own flags do not change -/
 theorem flag_x_rx (x x0 x' x'' y : Ep) (w : List Msg) (m : Msg) (em : Emit)
@@ -393,7 +423,7 @@ theorem flag_x_rx (x x0 x' x'' y : Ep) (w : List Msg) (m : Msg) (em : Emit)
       x''.listenerDropped = x.listenerDropped) : FlagInv x'' y w := by
   obtain ⟨f1, _, f3, _⟩ := handleRx_flags x0 x' m em he hctl
   exact ⟨by rw [h2.1, f1, h0.1]; exact h.cf, by rw [h2.2.2]; exact h.lf, by rw [h2.2.1, f3, h0.2]; exact h.gb,
-         h.acf, h.rcd, h.cdq, by rw [h2.2.1, f3, h0.2]; exact h.last⟩
+         h.acf, h.rcd, h.cdq, by rw [h2.2.1, f3, h0.2]; exact h.last, h.done⟩
 
 /-! ### one side: the `Client` handles and the end of the connect queue -/
 
@@ -403,9 +433,11 @@ structure ClientInv (s : Side) : Prop where
   alive : s.clientsAlive = true → Evt.allClientsDropped ∉ s.connQ ∧ s.ep.allClientsDropped = false
   /-- `AllClientsDropped` is the end of the queue -/
   last : ∀ pre post, s.connQ = pre ++ Evt.allClientsDropped :: post → post = []
+  /-- the drop of the last `Client` is not lost -/
+  gone : s.clientsAlive = false → Evt.allClientsDropped ∈ s.connQ ∨ s.ep.allClientsDropped = true
 
 theorem clientInv_init (e : Ep) (h : e.allClientsDropped = false) : ClientInv { ep := e } :=
-  ⟨fun h' => rfl, fun _ => ⟨by simp, h⟩, fun pre post h' => by simp at h'⟩
+  ⟨fun h' => rfl, fun _ => ⟨by simp, h⟩, fun pre post h' => by simp at h', fun h' => by simp at h'⟩
 
 theorem append_eq_split {α} (l : List α) (x m : α) (pre post : List α) (h : l ++ [x] = pre ++ m :: post) :
     (post = [] ∧ m = x ∧ pre = l) ∨ (∃ post', post = post' ++ [x] ∧ l = pre ++ m :: post') := by
@@ -435,7 +467,8 @@ theorem handleEvt_acd (e e' : Ep) (ev : Evt) (m : Option Msg) (h : handleEvt e e
 
 theorem clientInv_congr (s s' : Side) (h : ClientInv s) (hq : s'.connQ = s.connQ)
     (hc : s'.clientsAlive = s.clientsAlive) (ha : s'.ep.allClientsDropped = s.ep.allClientsDropped) : ClientInv s' :=
-  ⟨by rw [ha, hq]; exact h.done, by rw [hc, hq, ha]; exact h.alive, by rw [hq]; exact h.last⟩
+  ⟨by rw [ha, hq]; exact h.done, by rw [hc, hq, ha]; exact h.alive, by rw [hq]; exact h.last,
+   by rw [hc, hq, ha]; exact h.gone⟩
 
 @[simp] theorem rxHandles_clientsAlive (s : Side) (m : Msg) : (rxHandles s m).clientsAlive = s.clientsAlive := by
   cases m <;> rfl
@@ -449,7 +482,8 @@ theorem clientInv_evt (s s' : Side) (ev : Evt) (e' : Ep) (m : Option Msg) (h : C
     rw [hep, handleEvt_acd _ _ _ _ he]
     have : (ev == Evt.allClientsDropped) = false := by simpa using hne
     simp [this]
-  exact ⟨by rw [ha, hq]; exact h.done, by rw [hc, hq, ha]; exact h.alive, by rw [hq]; exact h.last⟩
+  exact ⟨by rw [ha, hq]; exact h.done, by rw [hc, hq, ha]; exact h.alive, by rw [hq]; exact h.last,
+         by rw [hc, hq, ha]; exact h.gone⟩
 
 theorem clientInv_step (s s' : Side) (inW inW' out : List Msg) (l : Lab)
     (hs : stepSide s inW l = some (s', inW', out)) (h : ClientInv s) (hq : QType s)
@@ -461,7 +495,8 @@ theorem clientInv_step (s s' : Side) (inW inW' out : List Msg) (l : Lab)
       simp only [Option.some.injEq, Prod.mk.injEq] at hs; obtain ⟨rfl, _, _⟩ := hs
       simp only [Bool.and_eq_true] at hg
       obtain ⟨h1, h2⟩ := h.alive hg.1.1
-      refine ⟨fun h' => by rw [h2] at h'; simp at h', fun _ => ⟨?_, h2⟩, fun pre post hsp => ?_⟩
+      refine ⟨fun h' => by rw [h2] at h'; simp at h', fun _ => ⟨?_, h2⟩, fun pre post hsp => ?_,
+              fun h' => by rw [hg.1.1] at h'; simp at h'⟩
       · simp [h1]
       · rcases append_eq_split _ _ _ _ _ hsp with ⟨hp, _, _⟩ | ⟨post', _, hl⟩
         · exact hp
@@ -472,7 +507,8 @@ theorem clientInv_step (s s' : Side) (inW inW' out : List Msg) (l : Lab)
     · rename_i hg
       simp only [Option.some.injEq, Prod.mk.injEq] at hs; obtain ⟨rfl, _, _⟩ := hs
       obtain ⟨h1, h2⟩ := h.alive hg
-      refine ⟨fun h' => by rw [h2] at h'; simp at h', fun h' => by simp at h', fun pre post hsp => ?_⟩
+      refine ⟨fun h' => by rw [h2] at h'; simp at h', fun h' => by simp at h', fun pre post hsp => ?_,
+              fun _ => Or.inl (by simp)⟩
       rcases append_eq_split _ _ _ _ _ hsp with ⟨hp, _, _⟩ | ⟨post', _, hl⟩
       · exact hp
       · exact absurd (by rw [hl]; simp) h1
@@ -487,7 +523,7 @@ theorem clientInv_step (s s' : Side) (inW inW' out : List Msg) (l : Lab)
            cases hx : s.ep.allClientsDropped with
            | false => rfl
            | true => have := h.done hx; rw [hq'] at this; simp at this
-         refine ⟨fun h' => ?_, fun h' => ?_, fun pre post hsp => ?_⟩
+         refine ⟨fun h' => ?_, fun h' => ?_, fun pre post hsp => ?_, fun h' => ?_⟩
          · simp only [ha, hnd, Bool.false_or, beq_iff_eq] at h'
            subst h'; exact h.last [] rest (by rw [hq']; rfl)
          · obtain ⟨h1, _⟩ := h.alive h'
@@ -496,7 +532,13 @@ theorem clientInv_step (s s' : Side) (inW inW' out : List Msg) (l : Lab)
            simp only [ha, hnd, Bool.false_or, beq_eq_false_iff_ne, ne_eq]
            intro hev; apply h1; simp [hev]
          · have hsp' : rest = pre ++ Evt.allClientsDropped :: post := hsp
-           exact h.last (ev :: pre) post (by rw [hq', hsp']; rfl))
+           exact h.last (ev :: pre) post (by rw [hq', hsp']; rfl)
+         · rcases h.gone h' with hg' | hg'
+           · rw [hq'] at hg'
+             rcases List.mem_cons.mp hg' with hg' | hg'
+             · right; rw [ha, ← hg']; simp
+             · exact Or.inl hg'
+           · rw [hnd] at hg'; simp at hg')
   case dispPort =>
     (repeat' split at hs) <;> first
       | (simp at hs; done)
@@ -528,7 +570,7 @@ theorem clientInv_step (s s' : Side) (inW inW' out : List Msg) (l : Lab)
     (repeat' split at hs) <;> first
       | (simp at hs; done)
       | (simp only [Option.some.injEq, Prod.mk.injEq] at hs; obtain ⟨rfl, _, _⟩ := hs
-         exact ⟨h.done, h.alive, h.last⟩)
+         exact ⟨h.done, h.alive, h.last, h.gone⟩)
 
 /-- the three kinds of steps of a side, with what the flag layer needs -/
 theorem stepSide_flags (s s' : Side) (inW inW' out : List Msg) (l : Lab)
@@ -595,9 +637,10 @@ theorem flag_step_side (x y x' : Side) (wxy wyx inW' out : List Msg) (l : Lab)
   rcases stepSide_flags x x' wyx inW' out l hs hq hc with ⟨sf, hcd, rfl, rfl⟩ | ⟨ev, m, he, rfl, rfl, hg, hr⟩ | ⟨m, e', em, rfl, rfl, he, hep⟩
   · simp only [List.append_nil]
     exact ⟨⟨by rw [sf.acd]; exact F1.cf, by rw [sf.ld]; exact F1.lf, by rw [sf.gbs]; exact F1.gb, F1.acf, F1.rcd, F1.cdq,
-            by rw [sf.gbs]; exact F1.last⟩,
+            by rw [sf.gbs]; exact F1.last, F1.done⟩,
            ⟨by rw [sf.rcd]; exact F2.cf, by rw [sf.rld]; exact F2.lf, by rw [sf.gbr]; exact F2.gb, F2.acf,
-            by rw [sf.rcd]; exact F2.rcd, by rw [sf.rcd]; exact Nat.le_trans hcd F2.cdq, by rw [sf.gbr]; exact F2.last⟩⟩
+            by rw [sf.rcd]; exact F2.rcd, by rw [sf.rcd]; exact Nat.le_trans hcd F2.cdq, by rw [sf.gbr]; exact F2.last,
+            by rw [sf.gbr]; exact F2.done⟩⟩
   · exact ⟨flag_x_evt x.ep x'.ep y.ep wxy ev m he F1 hg hr, flag_y_evt y.ep x.ep x'.ep inW' ev m he F2⟩
   · simp only [List.append_nil]
     have hctl := hw m (by simp)
